@@ -31,8 +31,13 @@
 (* (the repaired defect 8b4d5e4), a key without the row index, vend moved  *)
 (* by max(), lastForce kept across rollback.                               *)
 (*                                                                         *)
-(* E = [G, L, skip, start, tok, eos, order, alpha, sw]; tok[t + 1] = bytes *)
-(* of token t; order = the text tokens in trie (lexicographic) order.      *)
+(* E = [G, L, skip, start, tok, eos, order, alpha, sw, canon, maxlen];     *)
+(* tok[t + 1] = bytes of token t; order = the text tokens in trie          *)
+(* (lexicographic) order; canon = the tokenizer is canonical (greedy       *)
+(* longest match, as the harness environments are): compute_mask() then    *)
+(* forces bytes, turns them into fast-forward tokens (ff_tokens: greedy     *)
+(* tokenisation of last token + forced bytes, chop_tokens = token healing)  *)
+(* and narrows the mask to the first of them; maxlen = max_token_len().     *)
 (***************************************************************************)
 EXTENDS LexParse
 
@@ -101,7 +106,7 @@ Init0(E) ==
         rows == <<[items |-> c0[1], lab |-> {}]>>
     IN  [toks |-> <<>>, nb |-> 0, bytes |-> <<>>,
          stack |-> <<[row |-> 1, cur |-> StartCur(E, rows, 1), started |-> FALSE]>>,
-         rows |-> rows, vend |-> 1, lastForce |-> -1, topEos |-> FALSE, cache |-> <<>>, accCache |-> "none",
+         rows |-> rows, vend |-> 1, lastForce |-> -1, topEos |-> FALSE, cache |-> <<>>, accCache |-> "none", ffCache |-> <<>>,
          stop |-> "none", mode |-> "ok"]
 
 StOf(s) ==
@@ -145,9 +150,92 @@ Key(E, s) ==
     LET top == LastOf(s.stack) IN
     [cur |-> top.cur, row |-> IF E.sw.keyRow THEN top.row ELSE 0, pend |-> IF E.sw.keyPending THEN top.started ELSE FALSE]
 
-(* compute_mask (non-canonical tokenizer: forced bytes become the `start` prefix of the walk) *)
-Mask(E, s) ==
-    IF s.mode = "err" \/ s.stop # "none" THEN [s |-> [s EXCEPT !.mode = "err"], res |-> <<"err">>]
+(* ---- forced bytes (needed by the canonical path of compute_mask) --------- *)
+DPush(E, s, b) ==
+    LET r == PushByteW(E, [stack |-> s.stack, rows |-> s.rows, vend |-> s.vend], b, TRUE) IN
+    IF ~r.ok THEN [ok |-> FALSE, s |-> s]
+    ELSE [ok |-> TRUE, s |-> [s EXCEPT !.stack = r.stack, !.rows = r.rows, !.vend = r.vend, !.bytes = Append(s.bytes, b)]]
+
+(* force_bytes(): while not accepting and exactly one byte can be pushed, push it definitively *)
+RECURSIVE ForceLoop(_, _, _)
+ForceLoop(E, s, fuel) ==
+    IF fuel = 0 \/ PAcc(E, s) THEN s
+    ELSE LET w == [stack |-> s.stack, rows |-> s.rows, vend |-> LastOf(s.stack).row]
+             bs == {b \in E.alpha : PushByteW(E, w, b, FALSE).ok}
+         IN  IF Cardinality(bs) # 1 THEN s
+             ELSE ForceLoop(E, DPush(E, s, CHOOSE b \in bs : TRUE).s, fuel - 1)
+
+ForceNow(E, s, fuel) ==
+    IF Len(s.bytes) = s.lastForce THEN s
+    ELSE LET f == ForceLoop(E, s, fuel) IN [f EXCEPT !.lastForce = Len(f.bytes)]
+
+(* ---- fast-forward tokens (tokenparser.rs ff_tokens, toktree.rs chop_tokens) ---- *)
+TextToks(E) == {E.order[i] : i \in DOMAIN E.order}
+RECURSIVE BytesOfToks(_, _)
+BytesOfToks(E, ts) == IF ts = <<>> THEN <<>> ELSE E.tok[Head(ts) + 1] \o BytesOfToks(E, Tail(ts))
+
+(* greedy_tokenize: at each position the longest token that is a prefix of the rest (a byte no token starts with is skipped) *)
+RECURSIVE Greedy(_, _)
+Greedy(E, bs) ==
+    IF bs = <<>> THEN <<>>
+    ELSE LET cands == {t \in TextToks(E) : IsPrefixOf(E.tok[t + 1], bs)} IN
+         IF cands = {} THEN Greedy(E, Tail(bs))
+         ELSE LET t == CHOOSE x \in cands : \A y \in cands : Len(E.tok[y + 1]) <= Len(E.tok[x + 1]) IN
+              <<t>> \o Greedy(E, SubSeq(bs, Len(E.tok[t + 1]) + 1, Len(bs)))
+
+(* has_valid_extensions(start): some token strictly extends `start` and the parser (after all forced bytes) takes the rest *)
+HasValidExt(E, s, start) ==
+    LET w == [stack |-> s.stack, rows |-> s.rows, vend |-> LastOf(s.stack).row] IN
+    \E t \in TextToks(E) :
+        LET tb == E.tok[t + 1] IN
+        /\ Len(tb) > Len(start) /\ IsPrefixOf(start, tb)
+        /\ PushSeqW(E, w, SubSeq(tb, Len(start) + 1, Len(tb)), FALSE, 0).ok
+
+SeqSum(q) == LET RECURSIVE Go(_) Go(i) == IF i > Len(q) THEN 0 ELSE q[i] + Go(i + 1) IN Go(1)
+
+(* chop_tokens: look at the bytes of the last (at most 4) tokens, at most max_token_len of them; the first suffix that some *)
+(* longer token could continue is given back: whole tokens are dropped until they cover it.  Result <<tokens, bytes>>.      *)
+Chop(E, s, ts) ==
+    LET look == SubSeq(ts, IF Len(ts) > 4 THEN Len(ts) - 3 ELSE 1, Len(ts))
+        sb0 == BytesOfToks(E, look)
+        sb == SubSeq(sb0, IF Len(sb0) > E.maxlen THEN Len(sb0) - E.maxlen + 1 ELSE 1, Len(sb0))
+        idxs == {i \in 1..Len(sb) : HasValidExt(E, s, SubSeq(sb, i, Len(sb)))}
+    IN  IF idxs = {} THEN <<0, 0>>
+        ELSE LET i == CHOOSE x \in idxs : \A y \in idxs : x <= y
+                 chopBytes == Len(sb) - i + 1
+                 lens(k) == SeqSum([j \in 1..k |-> Len(E.tok[ts[Len(ts) - j + 1] + 1])])
+                 k == CHOOSE x \in 1..Len(ts) : lens(x) >= chopBytes /\ \A y \in 1..(x - 1) : lens(y) < chopBytes
+             IN  <<k, lens(k)>>
+
+(* ff_tokens(): returns [s (bytes forced), toks, prefix] *)
+FFTokensOf(E, s, fuel) ==
+    LET existing == IF s.toks = <<>> \/ LastOf(s.toks) = E.eos THEN <<>> ELSE <<LastOf(s.toks)>>
+        eb == BytesOfToks(E, existing)
+        s2 == IF E.canon THEN ForceNow(E, s, fuel) ELSE s
+        fb == eb \o Pending(s2)
+    IN
+    IF Len(fb) > Len(eb) /\ E.canon
+    THEN LET t1 == Greedy(E, fb)
+             keep == Len(t1) >= Len(existing) /\ SubSeq(t1, 1, Len(existing)) = existing
+             tokens == IF keep THEN t1 ELSE Greedy(E, Pending(s2))
+             nfix == IF keep THEN Len(existing) ELSE 0
+             ch == Chop(E, s2, SubSeq(tokens, nfix + 1, Len(tokens)))
+             grm == SubSeq(tokens, nfix + 1, Len(tokens) - ch[1])
+         IN  [s |-> s2, toks |-> grm, prefix |-> IF grm # <<>> THEN SubSeq(fb, Len(fb) - ch[2] + 1, Len(fb)) ELSE Pending(s2)]
+    ELSE [s |-> s2, toks |-> <<>>, prefix |-> Pending(s2)]
+
+(* compute_mask.  Canonical tokenizer: bytes are forced and turned into fast-forward tokens; if there are any, the mask is *)
+(* narrowed to the first of them.  Otherwise (and for a non-canonical tokenizer) the pending forced bytes are the `start`  *)
+(* prefix of the walk.                                                                                                     *)
+Mask(E, s0, fuel) ==
+    IF s0.mode = "err" \/ s0.stop # "none" THEN [s |-> [s0 EXCEPT !.mode = "err"], res |-> <<"err">>]
+    ELSE
+    LET ff == IF ~E.canon THEN [s |-> s0, toks |-> <<>>, prefix |-> Pending(s0)]
+              ELSE IF s0.ffCache # <<>> THEN [s |-> s0, toks |-> s0.ffCache[1].toks, prefix |-> s0.ffCache[1].prefix]
+              ELSE FFTokensOf(E, s0, fuel)
+        s == [ff.s EXCEPT !.ffCache = <<>>]            \* ff_tokens_cache.take()
+    IN
+    IF ff.toks # <<>> THEN [s |-> s, res |-> <<"mask", {ff.toks[1]}>>]
     ELSE
     LET pre == Pending(s)
         key == Key(E, s)
@@ -159,7 +247,7 @@ Mask(E, s) ==
     LET base == Len(s.stack)
         ws == Walk(E, base, pre, [stack |-> s.stack, rows |-> s.rows, vend |-> LastOf(s.stack).row, path |-> <<>>,
                                   failed |-> <<>>, mask |-> {}], 1)
-        short == {t \in {E.order[i] : i \in DOMAIN E.order} : IsPrefixOf(E.tok[t + 1], pre)}
+        short == {t \in TextToks(E) : IsPrefixOf(E.tok[t + 1], pre)}
         m == ws.mask \cup short
         (* trie_finished: pop everything, vend back to num_rows; the rows above stay as garbage *)
         s2 == [SetAcc(E, s) EXCEPT !.rows = ws.rows, !.vend = LastOf(s.stack).row,
@@ -167,12 +255,15 @@ Mask(E, s) ==
     IN  IF m \cup eos = {} THEN [s |-> [s2 EXCEPT !.mode = "err"], res |-> <<"err">>]     \* NoExtensionBias
         ELSE [s |-> s2, res |-> <<"mask", m \cup eos>>]
 
-(* ---- definitive path ---------------------------------------------------- *)
-DPush(E, s, b) ==
-    LET r == PushByteW(E, [stack |-> s.stack, rows |-> s.rows, vend |-> s.vend], b, TRUE) IN
-    IF ~r.ok THEN [ok |-> FALSE, s |-> s]
-    ELSE [ok |-> TRUE, s |-> [s EXCEPT !.stack = r.stack, !.rows = r.rows, !.vend = r.vend, !.bytes = Append(s.bytes, b)]]
+(* compute_ff_tokens(): the answer is remembered (ff_tokens_cache) for the next compute_mask when forcing is possible *)
+FFTokens(E, s, fuel) ==
+    IF s.mode = "err" THEN [s |-> s, res |-> <<"err">>]
+    ELSE IF s.stop # "none" THEN [s |-> s, res |-> <<"fft", <<>> >>]
+    ELSE LET ff == FFTokensOf(E, s, fuel) IN
+         [s |-> IF E.canon THEN [ff.s EXCEPT !.ffCache = <<[toks |-> ff.toks, prefix |-> ff.prefix]>>] ELSE ff.s,
+          res |-> <<"fft", ff.toks>>]
 
+(* ---- definitive path ---------------------------------------------------- *)
 (* apply_token: bytes already forced are compared, the others are pushed *)
 RECURSIVE ApplyBytes(_, _, _)
 ApplyBytes(E, s, bs) ==
@@ -199,26 +290,15 @@ Commit(E, s, t) ==
                                                                   cur |-> StartCur(E, pr.rows, top.row + 1),
                                                                   started |-> FALSE])]
               IN  [s |-> [s2 EXCEPT !.toks = Append(s.toks, t), !.stop = "eos"], res |-> <<"ok">>]
-    ELSE LET r == ApplyBytes(E, [s EXCEPT !.accCache = "none"], E.tok[t + 1]) IN      \* clear_caches()
+    ELSE LET r == ApplyBytes(E, [s EXCEPT !.accCache = "none", !.ffCache = <<>>], E.tok[t + 1]) IN      \* clear_caches()
          IF ~r.ok \/ E.tok[t + 1] = <<>> \/ E.tok[t + 1][1] = 255
          THEN [s |-> [s EXCEPT !.mode = "err"], res |-> <<"err">>]
          ELSE [s |-> CheckStop(E, [r.s EXCEPT !.toks = Append(s.toks, t)]), res |-> <<"ok">>]
 
-(* force_bytes(): while not accepting and exactly one byte can be pushed, push it definitively *)
-RECURSIVE ForceLoop(_, _, _)
-ForceLoop(E, s, fuel) ==
-    IF fuel = 0 \/ PAcc(E, s) THEN s
-    ELSE LET w == [stack |-> s.stack, rows |-> s.rows, vend |-> LastOf(s.stack).row]
-             bs == {b \in E.alpha : PushByteW(E, w, b, FALSE).ok}
-         IN  IF Cardinality(bs) # 1 THEN s
-             ELSE ForceLoop(E, DPush(E, s, CHOOSE b \in bs : TRUE).s, fuel - 1)
-
 Force(E, s, fuel) ==
     IF s.mode = "err" THEN [s |-> s, res |-> <<"err">>]
     ELSE IF s.stop # "none" THEN [s |-> s, res |-> <<"ff", <<>> >>]
-    ELSE LET s2 == IF Len(s.bytes) = s.lastForce THEN s
-                   ELSE LET f == ForceLoop(E, s, fuel) IN [f EXCEPT !.lastForce = Len(f.bytes)]
-         IN  [s |-> s2, res |-> <<"ff", Pending(s2)>>]
+    ELSE LET s2 == ForceNow(E, s, fuel) IN [s |-> s2, res |-> <<"ff", Pending(s2)>>]
 
 IsAccepting(E, s) ==
     IF s.mode = "err" THEN [s |-> s, res |-> <<"err">>] ELSE [s |-> SetAcc(E, s), res |-> <<"acc", Acc(E, s)>>]
@@ -236,7 +316,7 @@ Rollback(E, s, k) ==
              newLen == s.nb - DropLen(E, SubSeq(s.toks, keep + 1, Len(s.toks)))
              stack == SubSeq(s.stack, 1, newLen + 1)
          IN  [s |-> [s EXCEPT !.toks = SubSeq(s.toks, 1, keep), !.nb = newLen, !.bytes = SubSeq(s.bytes, 1, newLen),
-                              !.stack = stack, !.vend = LastOf(stack).row, !.topEos = FALSE, !.stop = "none", !.accCache = "none",
+                              !.stack = stack, !.vend = LastOf(stack).row, !.topEos = FALSE, !.stop = "none", !.accCache = "none", !.ffCache = <<>>,
                               !.lastForce = IF E.sw.resetLastForce THEN -1 ELSE s.lastForce,
                               !.cache = IF E.sw.clearOnRollback THEN <<>> ELSE s.cache],
               res |-> <<"ok">>]
